@@ -35,6 +35,17 @@ UNRELATED_HARD = {
 }
 
 
+# unrelated content that merely MENTIONS the markers (another tool's current_version, a table whose name ends in
+# `bumpver]`, a comment): not a bumpver section
+LOOKALIKE = {
+    "setup.cfg": "[bumpversion]\ncurrent_version = 1.0.0\n\n[tool:bumpver]\nnote = x\n",
+    "pyproject.toml": "[tool.bumpversion]\ncurrent_version = \"1.0.0\"\n\n[tool.hatch.envs.bumpver]\ndependencies = [\"bumpver\"]\n",
+    "bumpver.toml": "# moved: see [tool.bumpver] current_version in pyproject.toml\n",
+    ".bumpver.toml": "[other]\nnote = \"see [bumpver] current_version\"\n",
+    "pycalver.toml": "[misc]\nx = \"[pycalver] current_version\"\n",
+}
+
+
 def section(fn):
     if fn == "setup.cfg":
         return ("[bumpver]\ncurrent_version = 2019.1001-alpha\nversion_pattern = YYYY.BUILD[-TAG]\ncommit = False\n\n"
@@ -55,7 +66,7 @@ SPEC = dict(
     assumptions=["prior content of config-capable files is valid TOML/INI (init appends to it)",
                  "the initial version is '<current UTC year>.1001-alpha'"],
     required=["layouts", "init_appended_to_existing_file", "init_created_new_file", "show_ok", "second_init_refused",
-              "existing_section_preferred", "existing_section_with_comment_after_header", "existing_section_with_blanks_around_header", "dry_runs_clean", "pinned_clock_cases"],
+              "existing_section_preferred", "existing_section_with_comment_after_header", "existing_section_with_blanks_around_header", "unrelated_content_that_mentions_the_markers", "dry_runs_clean", "pinned_clock_cases"],
     anchors=[("config", "_pick_config_filepath"), ("config", "default_config"), ("config", "write_content"),
              ("cli", "init")],
     exhaustive={"quick": True, "thorough": True},
@@ -88,23 +99,41 @@ def cases(ctx):
                 if ctx.mine(k):
                     yield {"plain": [True, False, True], "cfgs": cfgs}
                 k += 1
-        for i, fn in enumerate(CONFIGS):
-            for others in (["absent"] * 4, ["unrelated"] * 4, ["empty", "absent", "unrelated", "absent"]):
+    # (the following header / content variants run on both tiers)
+    for i, fn in enumerate(CONFIGS):
+        for others in (["absent"] * 4, ["unrelated"] * 4, ["empty", "absent", "unrelated", "absent"]):
+            cfgs = list(others)
+            cfgs.insert(i, "section#")
+            if ctx.mine(k):
+                yield {"plain": [True, False, True], "cfgs": cfgs}
+            k += 1
+    # a real section in ONE file, look-alike content in all the others (whatever their priority)
+    for i, fn in enumerate(CONFIGS):
+        for opt in ("section", "section_s"):
+            if opt == "section_s" and fn == "setup.cfg":
+                continue
+            cfgs = ["lookalike"] * 4
+            cfgs.insert(i, opt)
+            if ctx.mine(k):
+                yield {"plain": [True, False, True], "cfgs": cfgs}
+            k += 1
+    # look-alike content only: init has to work as for any unrelated content
+    for i, fn in enumerate(CONFIGS):
+        cfgs = ["absent"] * 4
+        cfgs.insert(i, "lookalike")
+        if ctx.mine(k):
+            yield {"plain": [True, False, False], "cfgs": cfgs}
+        k += 1
+    for i, fn in enumerate(CONFIGS):
+        for opt in ("section_t", "section_i"):
+            if opt == "section_i" and fn == "setup.cfg":
+                continue        # (an indented line is a continuation line for configparser, not a header)
+            for others in (["absent"] * 4, ["unrelated"] * 4):
                 cfgs = list(others)
-                cfgs.insert(i, "section#")
+                cfgs.insert(i, opt)
                 if ctx.mine(k):
                     yield {"plain": [True, False, True], "cfgs": cfgs}
                 k += 1
-        for i, fn in enumerate(CONFIGS):
-            for opt in ("section_t", "section_i"):
-                if opt == "section_i" and fn == "setup.cfg":
-                    continue        # (an indented line is a continuation line for configparser, not a header)
-                for others in (["absent"] * 4, ["unrelated"] * 4):
-                    cfgs = list(others)
-                    cfgs.insert(i, opt)
-                    if ctx.mine(k):
-                        yield {"plain": [True, False, True], "cfgs": cfgs}
-                    k += 1
 
 
 # days on which the ISO (week-based) year differs from the calendar year, their neighbours, and ordinary days
@@ -144,10 +173,18 @@ def run_layout(ctx, case, bvu):
         elif opt == "tooltable":
             # unrelated content that uses the [tool.*] namespace (a bumpver.toml may hold other tools' tables)
             files[fn] = TOOLTABLE[fn]
+        elif opt == "lookalike":
+            files[fn] = LOOKALIKE[fn]
+            ctx.count("unrelated_content_that_mentions_the_markers")
         elif opt == "nonl":
             files[fn] = UNRELATED[fn].rstrip("\n")   # prior content whose last line has no newline
-        elif opt in ("section", "section#", "section_t", "section_i"):
+        elif opt in ("section", "section#", "section_t", "section_i", "section_s"):
             sec = section(fn)
+            if opt == "section_s":
+                # blanks inside the brackets of the header (legal TOML)
+                head, rest = sec.split("\n\n")[0].split("\n", 1)
+                sec = "[ " + head[1:-1] + " ]\n" + rest + "\n"
+                ctx.count("existing_section_with_blanks_around_header")
             if opt in ("section_t", "section_i"):
                 # the header line ends in blanks / a tab, or is indented (keys at column 0): still the same section
                 head, rest = sec.split("\n\n")[0].split("\n", 1)
